@@ -145,7 +145,7 @@ def r10c(ck, fb):
     _compare_shape(ck, h, 'LISTENER', 'R10c')
     _compare_shape(ck, h, 'Subscribe', 'R10c')
     add = [s for s in util.mut_calls_on_field(h, 'subscriber', re.escape(SB + 'add_subscribe') + '$')]
-    ck.require(len(add) == 1, 'R10c', 'Subscribe:add_subscribe', h.where(), 'Subscribe does not register')
+    ck.require(len(add) >= 1, 'R10c', 'Subscribe:add_subscribe', h.where(), 'Subscribe does not register')
     ck_agg = h.aggregates(r'config::core::ConfigResult$', 'ChangeKey')
     if add and ck_agg:
         ck.require(cfg.dominates_blocks(h, {add[0].bb}, ck_agg[0][0]), 'R10c', 'Subscribe:register-before-answer', h.where(ck_agg[0][0]), 'ChangeKey can be answered without the subscription being registered')
@@ -161,7 +161,7 @@ def r10d(ck, fb):
     hb = ck.body(CA + 'hb', 'R10d')
     if hb:
         rl = hb.calls(r'AsyncContext::run_later$')
-        ck.require(len(rl) == 1, 'R10d', 'hb:run_later', hb.where(), 'hb does not schedule itself with run_later')
+        ck.require(len(rl) >= 1, 'R10d', 'hb:run_later', hb.where(), 'hb does not schedule itself with run_later')
         cl = fb.tree(CA + 'hb')[1:]
         ok = False
         for c in cl:
@@ -233,7 +233,7 @@ def r10e(ck, fb):
     sn = ck.body(SB + 'notify', 'R10e')
     if sn:
         sd = util.sends(sn, r'BiStreamManageCmd$', 'NotifyConfig')
-        ck.require(len(sd) == 1, 'R10e', 'Subscriber::notify:NotifyConfig', sn.where(), 'subscribers are not notified through NotifyConfig')
+        ck.require(len(sd) >= 1, 'R10e', 'Subscriber::notify:NotifyConfig', sn.where(), 'subscribers are not notified through NotifyConfig')
         if sd:
             t = Taint(sn, place_src=field_place_src('listener'))
             a = sd[0][3]
